@@ -215,8 +215,8 @@ theorem QInv.step {init : Queue} {m : QMap} {R R' : Node → Node → Prop} {log
       · rw [har] at hw; exact htrans _ _ _ hrw (hdw w hw)
   constructor
   · -- wr
-    intro a ha hak
-    rcases List.mem_append.1 ha with ha | ha
+    intro a ha0 hak
+    rcases List.mem_append.1 ha0 with ha | ha
     · by_cases har : a.res = r
       · by_cases hk : k.isWrite = true
         · refine ⟨⟨k, n⟩, ?_, hreach a ha har (.inl hak)⟩
@@ -235,8 +235,8 @@ theorem QInv.step {init : Queue} {m : QMap} {R R' : Node → Node → Prop} {log
       simp only [QMap.record_get, if_true]
       cases k <;> simp_all [Queue.record, Kind.isWrite]
   · -- rd
-    intro a ha hak
-    rcases List.mem_append.1 ha with ha | ha
+    intro a ha0 hak
+    rcases List.mem_append.1 ha0 with ha | ha
     · by_cases har : a.res = r
       · by_cases hk : k.isWrite = true
         · right
@@ -328,8 +328,8 @@ theorem QInv.step {init : Queue} {m : QMap} {R R' : Node → Node → Prop} {log
         subst ha
         exact .inr rfl
   · -- ini
-    intro w hw a ha
-    rcases List.mem_append.1 ha with ha | ha
+    intro w hw a ha0
+    rcases List.mem_append.1 ha0 with ha | ha
     · exact h'.ini w hw a ha
     · simp only [List.mem_singleton] at ha
       subst ha
@@ -349,5 +349,270 @@ theorem QInv.step {init : Queue} {m : QMap} {R R' : Node → Node → Prop} {log
       exact h.keep w hw r
     · rw [if_neg hx]
       exact h.keep w hw x
+
+end QV.Sched
+
+namespace QV.Sched
+
+/-! ### Histories driven directly through a queue map -/
+
+theorem runHistory_fst_nil (m : QMap) : (runHistory m []).1 = m := rfl
+
+/-- the invariant holds along any history, relative to the edges the history induces -/
+theorem history_inv (init : Queue) :
+    ∀ (h : List Access) (m : QMap) (E0 : List Edge) (log : List Access),
+      QInv init m (Reach E0 anyLabel) log →
+      QInv init (runHistory m h).1 (Reach (E0 ++ historyEdges m h) anyLabel) (log ++ h) := by
+  intro h
+  induction h with
+  | nil => intro m E0 log hq; simpa [runHistory, historyEdges] using hq
+  | cons a rest ih =>
+    intro m E0 log hq
+    let new := ((m.record a.res a.node a.kind).2.filter (fun d => d.node ≠ a.node)).map
+      (fun d => (⟨d.node, a.node, .await d.kind⟩ : Edge))
+    have hstep : QInv init (m.record a.res a.node a.kind).1 (Reach (E0 ++ new) anyLabel)
+        (log ++ [⟨a.node, a.res, a.kind⟩]) := by
+      apply hq.step (R' := Reach (E0 ++ new) anyLabel) a.res a.node a.kind (fun u => .refl u) (fun _ _ _ => Reach.trans)
+      · intro u v huv
+        exact huv.mono (fun e he => List.mem_append_left _ he)
+      · intro d hd
+        by_cases hdn : d.node = a.node
+        · rw [hdn]; exact .refl _
+        · apply Reach.edge (l := .await d.kind) _ rfl
+          apply List.mem_append_right
+          simp only [new, List.mem_map, List.mem_filter]
+          exact ⟨d, ⟨hd, by simpa using hdn⟩, rfl⟩
+    have := ih (m.record a.res a.node a.kind).1 (E0 ++ new) (log ++ [⟨a.node, a.res, a.kind⟩]) hstep
+    simpa [runHistory, historyEdges, new, List.append_assoc] using this
+
+/-! ### `recordAll`: all accesses of one instruction to one map -/
+
+theorem recordAll_inv {init : Queue} {E : List Edge} {C : Label → Bool} (n : Node) :
+    ∀ (accs : List (Nat × Kind)) (m : QMap) (log : List Access),
+      QInv init m (Reach E C) log →
+      (∀ d ∈ (recordAll m n accs).2, Reach E C d.node n) →
+      QInv init (recordAll m n accs).1 (Reach E C) (log ++ accs.map fun a => ⟨n, a.1, a.2⟩) := by
+  intro accs
+  induction accs with
+  | nil => intro m log hq _; simpa [recordAll] using hq
+  | cons a rest ih =>
+    intro m log hq hd
+    have hstep : QInv init (m.record a.1 n a.2).1 (Reach E C) (log ++ [⟨n, a.1, a.2⟩]) :=
+      hq.step (R' := Reach E C) a.1 n a.2 (fun u => .refl u) (fun _ _ _ => Reach.trans) (fun _ _ h => h)
+        (fun d hd' => hd d (by simp only [recordAll]; exact List.mem_append_left _ hd'))
+    have := ih (m.record a.1 n a.2).1 (log ++ [⟨n, a.1, a.2⟩]) hstep
+      (fun d hd' => hd d (by simp only [recordAll]; exact List.mem_append_right _ hd'))
+    simpa [recordAll, List.append_assoc] using this
+
+/-- every dependency reported while recording the accesses `accs` of node `n` is a logged (or earlier in
+`accs`) conflicting access to the same resource, or the initial writer -/
+theorem recordAll_deps_justified {init : Queue} (n : Node) :
+    ∀ (accs : List (Nat × Kind)) (m : QMap) (log : List Access),
+      QInv init m (fun _ _ => True) log →
+      ∀ d ∈ (recordAll m n accs).2, ∃ a ∈ accs, Conflict d.kind a.2 ∧
+        ((⟨d.node, a.1, d.kind⟩ : Access) ∈ log ++ accs.map (fun a => ⟨n, a.1, a.2⟩) ∨ init.write = some d) := by
+  intro accs
+  induction accs with
+  | nil => intro m log _ d hd; simp [recordAll] at hd
+  | cons a rest ih =>
+    intro m log hq d hd
+    simp only [recordAll] at hd
+    rcases List.mem_append.1 hd with hd | hd
+    · have := hq.deps_justified a.1 n a.2 d hd
+      refine ⟨a, List.mem_cons_self, this.1, this.2.imp (fun h => List.mem_append_left _ h) id⟩
+    · have hstep : QInv init (m.record a.1 n a.2).1 (fun _ _ => True) (log ++ [⟨n, a.1, a.2⟩]) :=
+        hq.step (R' := fun _ _ => True) a.1 n a.2 (fun _ => trivial) (fun _ _ _ _ _ => trivial) (fun _ _ _ => trivial)
+          (fun _ _ => trivial)
+      obtain ⟨a', ha', hc, hj⟩ := ih (m.record a.1 n a.2).1 _ hstep d hd
+      refine ⟨a', List.mem_cons_of_mem _ ha', hc, hj.imp (fun h => ?_) id⟩
+      simpa [List.append_assoc] using h
+
+/-! ### Structure of one `build` iteration -/
+
+theorem frameLoop_mem (s : Bool) (n : Node) (k : Kind) :
+    ∀ (fs : List Nat) (st : St), (frameLoop s n k fs st).mem = st.mem ∧
+      (frameLoop s n k fs st).trailing = st.trailing := by
+  intro fs
+  induction fs with
+  | nil => intro st; exact ⟨rfl, rfl⟩
+  | cons f fs ih =>
+    intro st
+    simp only [frameLoop]
+    rw [(ih _).1, (ih _).2]
+    cases s <;> simp
+
+theorem frameLoop_edges_sub (s : Bool) (n : Node) (k : Kind) :
+    ∀ (fs : List Nat) (st : St), ∀ e ∈ st.edges, e ∈ (frameLoop s n k fs st).edges := by
+  intro fs
+  induction fs with
+  | nil => intro st e he; exact he
+  | cons f fs ih =>
+    intro st e he
+    simp only [frameLoop]
+    apply ih
+    cases s <;> simp [he]
+
+theorem frameLoop_edges_new (s : Bool) (n : Node) (k : Kind) :
+    ∀ (fs : List Nat) (st : St), ∀ e ∈ (frameLoop s n k fs st).edges,
+      e ∈ st.edges ∨ (e.dst = n ∧ (e.label = .scheduled ∨ e.label = .stable)) := by
+  intro fs
+  induction fs with
+  | nil => intro st e he; exact .inl he
+  | cons f fs ih =>
+    intro st e he
+    simp only [frameLoop] at he
+    rcases ih _ e he with h | h
+    · cases s
+      · simp only [Bool.false_eq_true, if_false, List.mem_append, List.mem_map] at h
+        rcases h with h | ⟨d, _, rfl⟩
+        · exact .inl h
+        · exact .inr ⟨rfl, .inr rfl⟩
+      · simp only [if_true, List.mem_append, List.mem_map] at h
+        rcases h with (h | ⟨d, _, rfl⟩) | ⟨d, _, rfl⟩
+        · exact .inl h
+        · exact .inr ⟨rfl, .inl rfl⟩
+        · exact .inr ⟨rfl, .inr rfl⟩
+    · exact .inr h
+
+/-- the memory edges emitted for one instruction (graph.rs:251-267) -/
+def memEdgesOf (n : Node) (ins : Instr) (st : St) : List Edge :=
+  ((recordAll st.mem n (memAccesses ins)).2.filter fun d => d.node ≠ n).map
+    fun d => ⟨d.node, n, .await d.kind⟩
+
+theorem memStep_fst (n : Node) (ins : Instr) (st : St) :
+    (memStep n ins st).1.mem = (recordAll st.mem n (memAccesses ins)).1 ∧
+    (memStep n ins st).1.edges = st.edges ++ memEdgesOf n ins st ∧
+    (memStep n ins st).1.ord = st.ord ∧ (memStep n ins st).1.timed = st.timed := by
+  simp [memStep, memEdgesOf]
+
+/-- what a successful iteration does to the memory queues and to the `AwaitMemoryAccess` edges -/
+theorem stepInstr_mem {n : Node} {ins : Instr} {st st' : St} (h : stepInstr n ins st = .ok st') :
+    st'.mem = (recordAll st.mem n (memAccesses ins)).1 ∧
+    (∀ e ∈ st.edges ++ memEdgesOf n ins st, e ∈ st'.edges) ∧
+    (∀ e ∈ st'.edges, isAwait e.label = true → e ∈ st.edges ++ memEdgesOf n ins st) := by
+  unfold stepInstr at h
+  obtain ⟨hm, he, -, -⟩ := memStep_fst n ins st
+  split at h
+  · cases h
+  · simp only at h
+    split at h
+    · cases h
+      refine ⟨hm, ?_, ?_⟩
+      · intro e hin
+        simp only [List.mem_append]
+        exact .inl (by rw [he]; exact hin)
+      · intro e hin hl
+        simp only [List.mem_append] at hin
+        rcases hin with hin | hin
+        · rw [he] at hin; exact hin
+        · split at hin
+          · simp only [List.mem_singleton] at hin
+            subst hin
+            simp [isAwait] at hl
+          · simp at hin
+    · split at h
+      · cases h
+        exact ⟨hm, fun e hin => by rw [he]; exact hin, fun e hin _ => by rw [he] at hin; exact hin⟩
+      · cases h
+        refine ⟨?_, ?_, ?_⟩
+        · rw [(frameLoop_mem _ _ _ _ _).1, (frameLoop_mem _ _ _ _ _).1, hm]
+        · intro e hin
+          apply frameLoop_edges_sub
+          apply frameLoop_edges_sub
+          rw [he]; exact hin
+        · intro e hin hl
+          rcases frameLoop_edges_new _ _ _ _ _ e hin with hin | ⟨_, h1 | h1⟩
+          · rcases frameLoop_edges_new _ _ _ _ _ e hin with hin | ⟨_, h1 | h1⟩
+            · rw [he] at hin; exact hin
+            · rw [h1] at hl; simp [isAwait] at hl
+            · rw [h1] at hl; simp [isAwait] at hl
+          · rw [h1] at hl; simp [isAwait] at hl
+          · rw [h1] at hl; simp [isAwait] at hl
+    · split at h
+      · cases h
+        exact ⟨hm, fun e hin => by rw [he]; exact hin, fun e hin _ => by rw [he] at hin; exact hin⟩
+      · cases h
+    · cases h
+
+/-- reachability only looks at the edges of its label class -/
+theorem Reach.congr_class {E E' : List Edge} {C : Label → Bool} {u v : Node}
+    (h : Reach E C u v) (hs : ∀ e ∈ E, C e.label = true → e ∈ E') : Reach E' C u v := by
+  induction h with
+  | refl => exact .refl _
+  | step _ he hc ih => exact .step ih (hs _ he hc) hc
+
+/-- the memory accesses of a list of processed items, in processing order -/
+def memLog (P : List (Node × Instr)) : List Access :=
+  P.flatMap fun p => (memAccesses p.2).map fun a => ⟨p.1, a.1, a.2⟩
+
+/-- every `AwaitMemoryAccess(k)` edge joins two logged accesses of one region, the source's of kind `k`,
+that conflict; and never a node with itself -/
+def MemEdgesJustified (E : List Edge) (log : List Access) : Prop :=
+  ∀ e ∈ E, ∀ k, e.label = .await k → e.src ≠ e.dst ∧
+    ∃ r k2, (⟨e.src, r, k⟩ : Access) ∈ log ∧ (⟨e.dst, r, k2⟩ : Access) ∈ log ∧ Conflict k k2
+
+theorem stepInstr_memInv {n : Node} {ins : Instr} {st st' : St} {log : List Access}
+    (h : stepInstr n ins st = .ok st')
+    (hq : QInv Queue.memInit st.mem (Reach st.edges isAwait) log)
+    (hj : MemEdgesJustified st.edges log) :
+    QInv Queue.memInit st'.mem (Reach st'.edges isAwait)
+      (log ++ (memAccesses ins).map fun a => ⟨n, a.1, a.2⟩) ∧
+    MemEdgesJustified st'.edges (log ++ (memAccesses ins).map fun a => ⟨n, a.1, a.2⟩) := by
+  obtain ⟨hm, hsub, hnew⟩ := stepInstr_mem h
+  constructor
+  · rw [hm]
+    apply recordAll_inv
+    · exact hq.mono fun u v huv => huv.mono fun e he => hsub e (List.mem_append_left _ he)
+    · intro d hd
+      by_cases hdn : d.node = n
+      · rw [hdn]; exact .refl _
+      · apply Reach.edge (l := .await d.kind) _ rfl
+        apply hsub
+        apply List.mem_append_right
+        simp only [memEdgesOf, List.mem_map, List.mem_filter]
+        exact ⟨d, ⟨hd, by simpa using hdn⟩, rfl⟩
+  · intro e he k hk
+    have := hnew e he (by rw [hk]; rfl)
+    rcases List.mem_append.1 this with hin | hin
+    · obtain ⟨h1, r, k2, h2, h3, h4⟩ := hj e hin k hk
+      exact ⟨h1, r, k2, List.mem_append_left _ h2, List.mem_append_left _ h3, h4⟩
+    · simp only [memEdgesOf, List.mem_map, List.mem_filter] at hin
+      obtain ⟨d, ⟨hd, hdn⟩, rfl⟩ := hin
+      simp only [Label.await.injEq] at hk
+      subst hk
+      obtain ⟨a, ha, hc, hin⟩ := recordAll_deps_justified (init := Queue.memInit) n (memAccesses ins) st.mem log
+        (hq.mono fun _ _ _ => trivial) d hd
+      refine ⟨by simpa using hdn, a.1, a.2, ?_, ?_, hc⟩
+      · rcases hin with hin | hin
+        · exact hin
+        · simp [Queue.memInit] at hin
+      · apply List.mem_append_right
+        simp only [List.mem_map]
+        exact ⟨a, ha, rfl⟩
+
+theorem runItems_memInv :
+    ∀ (P : List (Node × Instr)) (st st' : St) (log : List Access),
+      runItems P st = .ok st' →
+      QInv Queue.memInit st.mem (Reach st.edges isAwait) log →
+      MemEdgesJustified st.edges log →
+      QInv Queue.memInit st'.mem (Reach st'.edges isAwait) (log ++ memLog P) ∧
+      MemEdgesJustified st'.edges (log ++ memLog P) := by
+  intro P
+  induction P with
+  | nil =>
+    intro st st' log h hq hj
+    simp only [runItems] at h
+    cases h
+    simpa [memLog] using ⟨hq, hj⟩
+  | cons p rest ih =>
+    intro st st' log h hq hj
+    obtain ⟨n, ins⟩ := p
+    simp only [runItems] at h
+    split at h
+    · rename_i st1 hst1
+      obtain ⟨hq1, hj1⟩ := stepInstr_memInv hst1 hq hj
+      have := ih st1 st' _ h hq1 hj1
+      simpa [memLog, List.append_assoc] using this
+    · cases h
 
 end QV.Sched
